@@ -260,7 +260,18 @@ def bumpUnpub (k : Nat) : Nat → Nat → Nat
 def mbGot (fl : Flavour) (s : St) (k : Nat) (flush : Bool) : St :=
   if fl.fam = .mb then { s with unpub := if flush then 0 else bumpUnpub s.kpub k s.unpub } else s
 
+/-- Flush of the unpublished progress at a point where the consumer walked to the END of the written
+tickets (it reported Empty / Timeout / Disconnected, ended a batch early, or is about to wait).
+`deq_once` / `deq_run` skip SKIP tombstones on the way (shared.rs:745-754, 802-810): with no send in
+flight every claimed ticket is written, so that walk passed every tombstone and the window is exact
+again — the tombstone flag `tomb` is cleared (concurrent specification only; `inflight` and `tomb`
+stay 0 in a sequential run). -/
 def mbFlush (fl : Flavour) (s : St) : St :=
+  if fl.fam = .mb then { s with unpub := 0, tomb := if s.inflight = 0 then 0 else s.tomb } else s
+
+/-- Flush after a batch receive that was filled completely: the consumer stopped at `max`, it did not
+walk to the end — tombstones behind the last item taken stay in the window. -/
+def mbFlushMid (fl : Flavour) (s : St) : St :=
   if fl.fam = .mb then { s with unpub := 0 } else s
 
 /-! ## send forms -/
@@ -419,7 +430,7 @@ def recvStep (fl : Flavour) (cfg : Cfg) (s : St) (t : Nat) (f : Form) (hd : Hand
     if got.isEmpty then emptyOutcome fl s f hd
     else some (mbFlush fl s, .fin { tag := .ok, got := got })
   else if recvK fl cfg s f n got ≥ recvWant f n got ∨ recvUnit fl cfg f n got ≥ recvWant f n got then
-    some (if f.isBatch then mbFlush fl (mbGot fl (s.pop hd.name.idx (recvK fl cfg s f n got)) (recvK fl cfg s f n got) false)
+    some (if f.isBatch then mbFlushMid fl (mbGot fl (s.pop hd.name.idx (recvK fl cfg s f n got)) (recvK fl cfg s f n got) false)
           else mbGot fl (s.pop hd.name.idx (recvK fl cfg s f n got)) (recvK fl cfg s f n got) false,
           .fin { tag := .ok, got := got ++ s.buf.take (recvK fl cfg s f n got) })
   else some (mbGot fl (s.pop hd.name.idx (recvK fl cfg s f n got)) (recvK fl cfg s f n got) false,
@@ -600,7 +611,14 @@ def microDet (fl : Flavour) (cfg : Cfg) (s : St) : P → Option (St × P)
 * a receive that finds the head slot claimed-but-unwritten by an in-flight send reports
   Empty / Timeout (or ends its batch early) although completed sends are buffered behind it;
 * a `try_send*` on the bounded mpsc reports Full because in-flight sends hold tickets, or because
-  SKIP tombstones of an earlier overshoot still occupy the window (`tomb`);
+  SKIP tombstones of an earlier overshoot still occupy the window.  Tombstones are written by ANY send
+  form whose claim raced another producer's (`try_send_now` / `try_send_now_cold` / `claim_run` /
+  `claim_run_cold`: check the window, `fetch_add`, re-verify, SKIP on overshoot — shared.rs:304-331,
+  630-661), also by a send that then succeeds or blocks; they count as occupancy
+  (`g_tail - drained`) until the consumer walks over them, also after the race is over.  `tomb > 0` =
+  "two sends on this channel overlapped (`retire`) and the consumer has not walked to the end of the
+  ring with no send in flight since (`mbFlush`)": only then may a non-overlapping `try_send*` answer
+  Full below capacity (witness: corpus/chan/chanq_thorough.case, conc-1-10776);
 * a parked blocking send (re-polled send future) finds the receivers gone before it looks at the space;
 * mpmc bounded: a *parked* sync receiver woken by the last sender's close returns Disconnected
   without looking at the buffer again (sync_impl.rs:304-311, 352-357; async_impl.rs:733-745) — finding F17. -/
@@ -614,7 +632,7 @@ def microSpur (fl : Flavour) (cfg : Cfg) (s : St) : P → List (St × P)
     else []
   | .bsend t f h sent rest _ =>
     (if fl.fam = .mb ∧ !f.blocking ∧ (s.inflight > 1 ∨ s.tomb > 0) then
-      (sendStep fl cfg { s with tomb := s.tomb + rest.length } t f h sent rest 0 true).toList
+      (sendStep fl cfg s t f h sent rest 0 true).toList
     else []) ++
     -- a blocking send that was parked (or a re-polled send future) re-checks the closed flags before it
     -- tries again: with the receivers gone it may fail Closed even though there is room now
@@ -633,10 +651,16 @@ def microSpur (fl : Flavour) (cfg : Cfg) (s : St) : P → List (St × P)
 def micro (fl : Flavour) (cfg : Cfg) (s : St) (p : P) : List (St × P) :=
   (microDet fl cfg s p).toList ++ (if cfg.granular then microSpur fl cfg s p else [])
 
-/-- bookkeeping at the return event -/
+/-- bookkeeping at the return event: one fewer send in flight.  Bounded mpsc: a send that returns while
+another send is still in flight overlapped it — either of the two may have overshot its claim and left
+a SKIP tombstone in the ticket window (see `microSpur`); `tomb` counts these overlaps until the
+consumer's walk clears it (`mbFlush`). -/
 def retire (fl : Flavour) (cfg : Cfg) (s : St) (op : Op) : St :=
   match op with
-  | .snd _ _ _ => if cfg.granular ∧ hidesBehindInflight fl.fam then { s with inflight := s.inflight - 1 } else s
+  | .snd _ _ _ =>
+    if cfg.granular ∧ hidesBehindInflight fl.fam then
+      { s with inflight := s.inflight - 1, tomb := if fl.fam = .mb ∧ s.inflight > 1 then s.tomb + 1 else s.tomb }
+    else s
   | _ => s
 
 /-! ## Q: run to completion -/
